@@ -330,7 +330,7 @@ pub fn maximal_text_name(rng: &mut Rng, wire: usize) -> Name {
 
 /// Damage a valid text in a way whose invalidity does not depend on grammar corner cases.
 pub fn damaged_text(rng: &mut Rng) -> (String, &'static str) {
-    let which = rng.below(16);
+    let which = rng.below(18);
     // canonical single-space spelling so that token surgery is unambiguous
     let owner = name_to_text(&text_name(rng, 60), true);
     let host = name_to_text(&text_name(rng, 60), true);
@@ -388,6 +388,23 @@ pub fn damaged_text(rng: &mut Rng) -> (String, &'static str) {
             (format!("{} {} IN TXT \"{}\"", owner, ttl, t), "escape-out-of-range")
         }
         15 => (format!("{} {} IN MX 10", owner, ttl), "mx-missing-exchange"),
+        16 | 17 => {
+            // a name with an empty label (leading dot, or two dots in a row) is not a host name
+            let spoil = |n: &str, rng: &mut Rng| -> String {
+                if rng.chance(1, 2) || !n.trim_end_matches('.').contains('.') {
+                    format!(".{}", n)
+                } else {
+                    n.replacen('.', "..", 1)
+                }
+            };
+            let t = match rng.below(4) {
+                0 => format!("{} {} IN A 192.0.2.1", spoil(&owner, rng), ttl),
+                1 => format!("{} {} IN NS {}", owner, ttl, spoil(&host, rng)),
+                2 => format!("{} {} IN MX 10 {}", owner, ttl, spoil(&host, rng)),
+                _ => format!("{} {} IN SOA {} {} 1 2 3 4 5", owner, ttl, host, spoil(&host, rng)),
+            };
+            (t, "empty-label-in-name")
+        }
         _ => (format!("{} {} IN AAAA 12345::1", owner, ttl), "ipv6-group-too-long"),
     }
 }
